@@ -53,7 +53,7 @@ def generate(seed, tier):
     header = swarm.choice([0, 1, 1, 2, 3])
     spec = {"format": fmt, "header": header, "sep": swarm.choice([":", "...", "…"]), "fields": fields, "checks": []}
     if fmt in ("delimited", "fixed"):
-        spec["line_delimiter"] = swarm.choice(["lf", "crlf", "any"])
+        spec["line_delimiter"] = swarm.choice(["lf", "crlf", "any"] + (["none"] if fmt == "fixed" else []))
         if spec["line_delimiter"] == "any":
             spec["eol"] = swarm.choice(["\n", "\r", "\r\n"])
     if swarm.random() < 0.4:
@@ -77,7 +77,8 @@ def generate(seed, tier):
     limit = swarm.choice([None, None] + list(range(0, len(table) + 2)))
     api = swarm.choice(APIS)
     fault = None
-    if fmt in ("delimited", "fixed") and api == "validate" and limit is not None and len(table) > header + limit \
+    if fmt in ("delimited", "fixed") and spec.get("line_delimiter") != "none" and api == "validate" and limit is not None \
+            and len(table) > header + limit \
             and swarm.random() < 0.6:
         # a container fault right behind the limit must stay invisible to validate(): it stops after N data rows
         fault_rng = core.stream(seed, "fault")
